@@ -3,7 +3,8 @@
 // Contracts for package types of nft_transfer (comment-only; read by /verif's tibcvc).
 // The class-path algebra is abstracted by uninterpreted functions named after what the helpers compute; `trusts`
 // clauses only say that each helper IS a function of its arguments. The algebraic laws that relate them
-// (Back(Away(p)) == p ...) are checked against the real helper bodies by the bounded check `nft.classpath.algebra`.
+// (Back(Away(p)) == p ...) are checked against the real helper bodies by the bounded check `nft.classpath.algebra`
+// (/verif/bounded/classpath_algebra_test.go.txt, run by props C04 and C06).
 package types
 
 //@ spec tracePath(raw: str): str
